@@ -20,7 +20,7 @@ impl<S: State> Folded<S> {
             .shape()
             .iter()
             .map(|n| n.saturating_sub(1))
-            .sum::<usize>();
+            .fold(0usize, usize::saturating_add);
 
         // In general, this point divides the folding line. Since we are folding onto the "upper"
         // part of the array, we want to fold anything "below" it onto something "above" it.
